@@ -2,6 +2,8 @@ import SekaiProofs.Lemmas.Ante
 import Sekai.Gen.App
 import Sekai.Model.App
 import Sekai.Gen.Ambient
+import Sekai.Gen.Keys
+import SekaiProofs.Lemmas.Keys
 /-! # C09 — Fees: charged exactly as declared, within bounds; failed work leaves no trace
 
 Theorems about `Sekai.Ante` (the executable model of `ValidateFeeRangeDecorator`, the stock fee deduction,
@@ -380,5 +382,15 @@ theorem ante_fee_wiring :
 /-- the fee-processing EndBlocker (execution-fee return) runs, and after the gov EndBlocker (enactment) -/
 theorem feeprocessing_end_wiring :
     Sekai.App.before Sekai.Gen.App.endOrder "govtypes.ModuleName" "feeprocessingtypes.ModuleName" = true := by decide +kernel
+
+/-! ### Key spaces of the stores this model keeps in separate maps (table `Gen.Keys`)
+
+The model keeps each record kind of a module in a field of its own; the module keeps them in ONE store under byte prefixes.
+No prefix extends another (checked on the regenerated table), so by `Sekai.Keys.keys_of_different_kinds_differ` a key of one
+kind is never a key of another kind. -/
+
+theorem feeprocessing_key_spaces_disjoint : Sekai.Keys.disjoint Sekai.Gen.Keys.stores "feeprocessing" = true := by decide +kernel
+
+theorem gov_key_spaces_disjoint : Sekai.Keys.disjoint Sekai.Gen.Keys.stores "gov" = true := by decide +kernel
 
 end Sekai.Props.C09
